@@ -118,6 +118,14 @@ def props_update(slashed):
         # precedes the deal start; no caller uses it - settle_deal_payments refuses such deals, cron_tick ignores the figure)
         CONTRACT = [('result contract: the slashed amount is non-negative and a deal that continues is never slashed',
                      z3.And(slash_r >= 0, z3.Implies(z3.Not(bz(remove)), slash_r == 0)))]
+        # frame on the pending-proposal set (it is what prevents a proposal from being published twice, C08): only the FIRST
+        # update of a deal retires its pending entry; later updates must not touch the set (another live deal may since
+        # have been published with the same proposal cid)
+        ST_, DPF_, DSF_ = F()
+        qm = heap_get(E, fget(E, st1, ST_['pending_proposals'], CID)) if isinstance(fget(E, st1, ST_['pending_proposals'], CID), CidV) else None
+        touched = isinstance(qm, MapM) and len(qm.over) > 0
+        CONTRACT.append(('only the first update of a deal retires its pending-proposal entry; later updates leave the pending set alone',
+                         z3.Implies(ds['lu'] != -1, z3.BoolVal(not touched))))
         if not slashed:
             pay_end = zmin(deal['end'], epoch)
             paid = z3.If(started, deal['price'] * (pay_end - pf), 0)
